@@ -367,7 +367,13 @@ func (st *c13State) execRun(run *Run, record bool) (core.Signature, string, erro
 		if v == nil {
 			return nil, "", Infra("run %s: unknown variant %q", run.ID, op.Variant)
 		}
-		if err := SetSources(dir, v); err != nil {
+		known := map[string]bool{}
+		for _, kv := range run.Variants {
+			for n := range kv.Files {
+				known[n] = true
+			}
+		}
+		if err := SetSources(dir, v, known); err != nil {
 			return nil, "", Infra("%v", err)
 		}
 		obs, err := st.x.RunGen(dir, op, "r"+run.ID)
@@ -553,7 +559,7 @@ func (st *c13State) walkRuns(f *family, calls []SideEvent) []*Run {
 	}
 	for _, c := range calls {
 		closing := Op{Kind: "Gen", Variant: vLast, Binary: "sim", Map: MapCfg{Mode: "desc"}, Cwd: "rel", Report: true}
-		if c.Fn == "os.WriteFile" {
+		if isWriteSeam(c.Fn) {
 			for _, torn := range []string{"trunc0", "prefix", "full"} {
 				mk(fmt.Sprintf("c%d%s", c.N, torn), Op{Kind: "CrashGen", Variant: vLast, Binary: "sim", Map: MapCfg{Mode: "asc"}, Cwd: "dot",
 					Fault: &Fault{Call: c.N, Kind: "crash", Torn: torn, Pct: 40}}, closing)
@@ -627,7 +633,7 @@ func CheckC13(tier string, seed uint64, rep *core.Reporter) (*core.Evidence, err
 			}
 			var writeCalls []int
 			for _, c := range m.Calls {
-				if c.Fn == "os.WriteFile" {
+				if isWriteSeam(c.Fn) {
 					writeCalls = append(writeCalls, c.N)
 				}
 			}
@@ -912,4 +918,13 @@ func ReplayC13(path string, rep *core.Reporter) (int, error) {
 		rep.Report(sig, detail, doc.Replay)
 	}
 	return 1, nil
+}
+
+// isWriteSeam: seam calls that change what the directory holds.
+func isWriteSeam(fn string) bool {
+	switch fn {
+	case "os.WriteFile", "File.Write", "os.Rename", "os.Create", "os.OpenFile", "os.Remove", "File.Close":
+		return true
+	}
+	return false
 }
